@@ -36,6 +36,44 @@ def BOperand.enc : BOperand → FOperand
   | .ts idx vals => .ts { idx := idx, vals := vals.map boolCell }
   | .flag b => .num (boolCell b)
 
+/-! ### `min_ / max_` with frames: `df_sync`, then `reducer(_minimum | _maximum)`
+Modelled for operands that are scalars, Series and frames with SEVERAL columns (the driver refuses one-column frames:
+`_align_columns` broadcasts them against a wider frame, turns them into a Series against a Series, and lets pandas align two
+of them BY NAME - see docs/notes/C08.md).  The order of the joint columns is pandas' (`Index.union / intersection`) and not
+modelled: the model returns them sorted and the harness sorts the implementation's columns before comparing. -/
+
+/-- `_df_recolumn(ts, columns)`, lines 407-412: only frames with several columns are touched -/
+def recolX (cols : List String) : FOperand → FOperand
+  | .df f => if f.cols.length > 1 then .df (recolumnF cols f) else .df f
+  | y => y
+
+/-- `df_sync(dfs, join, method, columns)`, lines 773-845: every timeseries on the joint index, every frame with several
+columns on the joint columns (a column it lacks is NaN) -/
+def syncF (how : How) (m : Option Dir) (ch : ColHow) (xs : List FOperand) : List FOperand :=
+  let ys := match joinIndex how (indexesOfF xs) with
+    | Option.none => xs
+    | some ix => xs.map (alignF ix m)
+  match multiNames ys with
+  | [] => ys
+  | c :: cs => ys.map (recolX (colsJoin ch c cs))
+
+/-- `_align_columns(a, b, np.minimum | np.maximum)`, lines 1350-1395, on synchronised operands: a scalar broadcasts, a
+Series is repeated for every column of a frame, two frames (same header after `df_sync`) meet column by column -/
+def mmKernelF (k : MM) : FOperand → FOperand → FOperand
+  | .num p, .num q => .num (k.appO p q)
+  | .num p, .ts b => .ts { idx := b.idx, vals := b.vals.map fun y => k.appO p y }
+  | .ts a, .num q => .ts { idx := a.idx, vals := a.vals.map fun x => k.appO x q }
+  | .ts a, .ts b => .ts { idx := a.idx, vals := (a.vals.zip b.vals).map fun p => k.appO p.1 p.2 }
+  | .num p, .df b => .df { idx := b.idx, cols := b.cols.map fun c => (c.1, c.2.map fun y => k.appO p y) }
+  | .df a, .num q => .df { idx := a.idx, cols := a.cols.map fun c => (c.1, c.2.map fun x => k.appO x q) }
+  | .ts a, .df b => .df { idx := b.idx, cols := b.cols.map fun c => (c.1, (a.vals.zip c.2).map fun p => k.appO p.1 p.2) }
+  | .df a, .ts b => .df { idx := a.idx, cols := a.cols.map fun c => (c.1, (c.2.zip b.vals).map fun p => k.appO p.1 p.2) }
+  | .df a, .df b => .df { idx := a.idx, cols := a.cols.map fun c => (c.1, (c.2.zip ((colOf b c.1).getD [])).map fun p => k.appO p.1 p.2) }
+
+/-- `min_(a, b, join, method, columns)`, lines 1397-1410 -/
+def mmListF (k : MM) (how : How) (m : Option Dir) (ch : ColHow) (as bs : List FOperand) : Option FOperand :=
+  reducerF (mmKernelF k) (syncF how m ch (as ++ bs))
+
 /-- is every exponent NaN or a non-negative integer? (the domain of the model of `pow_`) -/
 def powDomainF : FOperand → Bool
   | .num q => powDomain (.num q)
